@@ -50,7 +50,7 @@ Definition mk_req (e : c12env) (cl sm vm ck rd cs loc : nat) : treq :=
   let redirect := form_get (redirect_values e rd) in
   let code := nth ((cl * 5 + ck) * 6 + cs)%nat (e_codes e) tok_none in
   let in_form := match loc with S O => true | _ => false end in
-  {| tr_post := true; tr_grant := gt_authcode; tr_redirect := redirect; tr_code := code;
+  {| tr_conn := conn_none; tr_post := true; tr_grant := gt_authcode; tr_redirect := redirect; tr_code := code;
      tr_verifier := verifier; tr_vhash := vhash;
      tr_basic := if in_form then None else Some (id, secret);
      tr_form_client := if in_form then id else [];
@@ -271,3 +271,71 @@ Definition release_violating_on (combos : list combo) (i : idp) (e : c12env) (t0
                  | Some combo => negb (obs_sole_audience (caller_id (req_of e combo)) idc)
                  | None => false
                  end) l).
+
+(* ---------------------------------------------------------------- the client-option dimension *)
+
+(* Per option of the client's configuration entry that the harness finds by reflection (bool fields set to
+   true, string fields set to plausible values), a client WITH a secret and a secret-less client carry it;
+   the product below is re-run with these two as callers 0 and 1 (every secret, verifier, challenge and
+   credential location; redirect same/other/absent; code fresh/expired/of the other client). *)
+Definition option_dims : dims :=
+  {| d_cl := [0; 1]; d_sm := seq 0 3; d_vm := seq 0 3; d_ck := seq 0 5; d_rd := [0; 1; 2]; d_cs := [0; 1; 3];
+     d_loc := seq 0 3 |}%nat.
+Definition option_combos : list combo := combos_of option_dims.
+
+(* the secret a token request shows (header first, else the body) *)
+Definition shown_secret (r : treq) : bs :=
+  match tr_basic r with Some (_, pw) => pw | None => tr_form_secret r end.
+
+(* The property's own predicate on a request that was OBSERVED to release tokens (the conclusion of
+   c12_secret_client_needs_secret): the caller names a configured client, and if that client has a secret
+   the request shows exactly it.  (A request that shows the right secret AND a verifier, released by an
+   implementation more liberal than the model, does not violate the property: the secret was proved.) *)
+Definition obs_secret_shown (i : idp) (r : treq) : bool :=
+  match find_client (caller_id r) (clients i) with
+  | Some c => negb (nonempty (cl_secret c)) || bs_eqb (shown_secret r) (cl_secret c)
+  | None => false
+  end.
+
+(* of the mismatching product indices [mm]: those observed as released on which the predicate fails *)
+Definition secret_violating_on (combos : list combo) (i : idp) (e : c12env) (observed : bs) (mm : list nat) : list nat :=
+  filter (fun n => match nth_opt combos n with
+                   | Some k => negb (nth n observed 0 =? 0)%N && negb (obs_secret_shown i (req_of e k))
+                   | None => false
+                   end) mm.
+
+(* ---------------------------------------------------------------- the connection dimension (Host header / TLS server name) *)
+
+(* the property's predicate on OBSERVED released tokens (the conclusion of c12_issuer_is_configured): both
+   name the configured issuer *)
+Definition obs_issuer (st : server) (idc acc : claimset) : bool :=
+  match rd_str "iss" idc, rd_str "iss" acc with
+  | Some a, Some b' => bs_eqb a (s_issuer st) && bs_eqb b' (s_issuer st)
+  | _, _ => false
+  end.
+
+Definition flow_violating_issuer (i : idp) (k : flow) : bool :=
+  let '(_, _, _, obs) := k in
+  match obs with
+  | Some (idc, acc, _) => negb (obs_issuer (srv i) idc acc)
+  | None => false
+  end.
+
+(* userinfo reached over a connection: the connection, the token, clock readings, the answer *)
+Definition userinfo_conn_bad (i : idp) (k : conn * token * Z * Z * option bs) : bool :=
+  let '(cn, t, t0, t1, obs) := k in
+  let chk (now : Z) :=
+    match userinfo_endpoint i now cn t, obs with
+    | Some u, Some u' => bs_eqb u u'
+    | None, None => true
+    | _, _ => false
+    end in
+  negb (chk t0 || chk t1).
+
+(* the discovery document fetched over a connection: (issuer, userinfo_endpoint) as served, None: no document *)
+Definition discovery_bad (i : idp) (k : conn * option (bs * bs)) : bool :=
+  let '(cn, obs) := k in
+  match obs with
+  | Some (iss, ui) => negb (bs_eqb iss (fst (discovery i cn)) && bs_eqb ui (snd (discovery i cn)))
+  | None => true
+  end.
